@@ -230,8 +230,11 @@ def run(pid, tier):
         hint = rng.choice([None, rng.sample(cands, nc)])
         recs.append(run_search(f"b{j}", cands, prof, w, rng.choice(["cp", "bp"]), hint))
     if pid == "C14":
-        recs += vote_records(["A", "B", "C", "D"] if tier == "thorough" else ["A", "B", "C"])
-        recs += [r for r in vote_records(["A", "B", "C", "D"]) if rng.random() < 0.25] if tier == "quick" else []
+        # candidate identifiers that are substrings of one another, as in real exports ("4" and "47")
+        recs += vote_records(["4", "47", "5", "3"] if tier == "thorough" else ["1", "12", "2"])
+        recs += [r for r in vote_records(["4", "47", "5", "45"]) if rng.random() < 0.25] if tier == "quick" else []
+        if tier == "thorough":
+            recs += vote_records(["A", "B", "C", "D"])
         # unique tids for the sampled 4-candidate vote records
         for n_, r in enumerate(recs):
             r["tid"] = f"{r['tid']}#{n_}"
